@@ -561,3 +561,73 @@ def run(ctx) -> None:  # noqa: F811
                       f"{f.qualname}[{case}]", f.where, f"metadata = {got}",
                       f"for {case} the metadata is {got}; expected {want}: the scalar tilt component is lost (member j "
                       "is then simulated with the wrong fixed tilt)", key_detail=case)
+
+
+# ---- added after the seeded change C03-r2seed2: alias setters forward a distribution as a distribution
+_inner_run_c03b = run
+
+
+def run(ctx) -> None:  # noqa: F811
+    import ast as _ast
+
+    from ..model import call_name as _cn, dotted as _dotted, norm_text as _nt, walk_no_nested as _walk
+    from ..terms import Normalizer as _Nz
+
+    ctx.rule("R-ALIASFWD", "property setters of the transfer-function classes (abtem/transfer.py) hand the user's value "
+             "on as it is — possibly negated or scaled, which BaseDistribution supports — never through a conversion "
+             "(np.asarray / np.array / float / list / tuple ...): BaseDistribution.__array__ yields the bare values, so "
+             "a converted distribution loses its weights and its ensemble_mean flag and is re-wrapped with unit weights; "
+             "and setters of the same property name that store into the same attribute store the same expression up to "
+             "validate_distribution (idempotent; the CTF's components validate again) — the cross-check of the two "
+             "`defocus` setters")
+    CONVERTERS = {"asarray", "array", "asanyarray", "float", "list", "tuple", "atleast_1d", "ascontiguousarray",
+                  "squeeze", "ravel"}
+    mod = ctx.repo.modules["abtem.transfer"]
+    by_name: dict[str, list] = {}
+    n = 0
+    for c in mod.classes.values():
+        for defs in c.methods.values():
+            for f in defs:
+                if not f.is_setter or len(f.positional_params) != 2:
+                    continue
+                p = f.positional_params[1]
+                stores = [st for st in _walk(f.node) if isinstance(st, _ast.Assign) and any(
+                    (_dotted(t) or "").startswith("self.") for t in st.targets)]
+                if len(stores) != 1:
+                    continue
+                st = stores[0]
+                uses_param = any(isinstance(x, _ast.Name) and x.id == p for x in _ast.walk(st.value))
+                if not uses_param:
+                    continue
+                n += 1
+                bad = []
+                for call in (x for x in _ast.walk(st.value) if isinstance(x, _ast.Call)):
+                    fn = (_cn(call) or "").split(".")[-1]
+                    if fn in CONVERTERS and any(isinstance(x, _ast.Name) and x.id == p for a in call.args
+                                                for x in _ast.walk(a)):
+                        bad.append(call)
+                ctx.check(not bad, "R-ALIASFWD", f"{f.qualname}.setter:forwarded unconverted", f.loc(st),
+                          f"`{_nt(st)}` forwards the value without conversion",
+                          f"`{_nt(st)[:80]}` passes the value through `{_nt(bad[0].func) if bad else ''}(...)`: a "
+                          "distribution is reduced to its bare values (weights and ensemble_mean are lost) before it is "
+                          "stored, so member i no longer carries weight_i and an averaged spread is not averaged",
+                          key_detail="converted")
+                tgt = _dotted(st.targets[0])
+                by_name.setdefault(f.name, []).append((f, st, tgt, _Nz(atom_alias={p: "value"}, identity_calls={"validate_distribution"}).norm(st.value)))
+    ctx.require(n >= 8, f"R-ALIASFWD examined only {n} setters")
+    for name, lst in sorted(by_name.items()):
+        groups = {}
+        for f, st, tgt, poly in lst:
+            groups.setdefault(tgt, []).append((f, st, poly))
+        for tgt, items in groups.items():
+            if len(items) < 2:
+                continue
+            keys = {poly.key() for _, _, poly in items}
+            f0, st0, _ = items[0]
+            odd = next(((f, st) for f, st, poly in items if poly.key() != items[0][2].key()), None)
+            ctx.check(len(keys) == 1, "R-ALIASFWD", f"setters of `{name}` -> {tgt}:siblings agree",
+                      (odd[0].loc(odd[1]) if odd else f0.loc(st0)),
+                      f"{len(items)} sibling setters store {items[0][2].key()}",
+                      "sibling setters of the same property disagree: " + "; ".join(
+                          f"{f.qualname}: {_nt(st)}" for f, st, _ in items), key_detail="siblings")
+    _inner_run_c03b(ctx)
